@@ -18,6 +18,7 @@ import (
 	"fmt"
 	"hash/fnv"
 	"math/rand"
+	"runtime"
 	"sort"
 	"strings"
 	"sync"
@@ -132,7 +133,9 @@ func TestCheck(t *testing.T) {
 	}
 
 	n := r.N(300, 6000)
-	r.Cases(n, 0, func(c *kit.Case) { runCase(c, pool) })
+	r.Require("deadline_edge_messages_that_arrived_at_the_edge_of_the_read_deadline", int64(edgeCases(r.Thorough())))
+	// the first edgeCases cases sleep through the protocol's one-minute receive timeout: widen the pool
+	r.Cases(n, runtime.GOMAXPROCS(0)+edgeCases(r.Thorough()), func(c *kit.Case) { runCase(c, pool) })
 
 	for k, v := range lc.snapshot() {
 		r.Count("handler_error/"+k, v)
@@ -541,6 +544,11 @@ func runCase(c *kit.Case, pool []member) {
 	if rng.Intn(2) == 0 {
 		wave0.Wait()
 	}
+	// deadline-edge play: prepared now (it uses the case PRNG), its messages arrive a minute later
+	var edgeWG *sync.WaitGroup
+	if c.Idx < edgeCases(r.Thorough()) {
+		edgeWG = a.runDeadlineEdge(a.prepareDeadlineEdge(mon.worlds[0]))
+	}
 	for s := 0; s < steps; s++ {
 		if s == steps/3 {
 			launch(plan[cut1:cut2])
@@ -551,6 +559,9 @@ func runCase(c *kit.Case, pool []member) {
 		a.step()
 	}
 	hwg.Wait()
+	if edgeWG != nil {
+		edgeWG.Wait()
+	}
 	for _, w := range mon.worlds {
 		w.net.WaitIdle()
 		w.dups.Wait()
@@ -570,6 +581,14 @@ func runCase(c *kit.Case, pool []member) {
 	}
 
 	evaluate(c, cfg, mon, a, plan)
+}
+
+func edgeCases(thorough bool) int {
+	if thorough {
+		return 48
+	}
+
+	return 10
 }
 
 func checkFunc(mon *monitor, kind string) bcast.CheckMessage {
